@@ -199,6 +199,8 @@ const (
 	ErrEndifWithoutMatchingIf Error = "$endif without matching $if"
 	// ErrUnknownModifier is the unknown modifier error.
 	ErrUnknownModifier Error = "unknown modifier"
+	// ErrIncludeRecursion is the recursive (or too deeply nested) $include error.
+	ErrIncludeRecursion Error = "recursive $include"
 )
 
 // Error satisfies the error interface.
